@@ -152,6 +152,20 @@ _DEPENDS = {
     "C06": _f(DISC, None, "get_connectivity_graph") + _GRAPH,
     "C12": _f(SIM, SS, "closest_distance", "distance") + _f(KTN, K, "reset_network"),
 }
+# upstream of nearly everything: the inherited numerical derivatives, the Lennard-Jones surface the atomic pipelines run
+# on, the match test, the loader (each is ALSO read completely by its own kernel translator where a property is about it)
+ATOMIC = "potentials/atomic.py"
+_POT = _f(POT, "Potential", "gradient", "hessian", "function_gradient", "check_valid_minimum", "check_valid_ts")
+_LJ = _f(ATOMIC, "LennardJones", "function", "gradient", "function_gradient", "pair_potential", "squared_distance", "get_atom")
+_SAME = _f(SIM, SS, "test_same")
+_UP = {
+    "C01": _POT + _LJ + _SAME, "C03": _SAME, "C04": _POT, "C05": _SAME, "C06": _f(KTN, K, "read_network"),
+    "C07": _POT + _LJ + _SAME, "C08": _POT + _LJ + _SAME, "C09": _POT + _LJ, "C10": _POT + _LJ, "C12": _SAME,
+    "C13": _SAME + _f(KTN, K, "read_network"), "C14": _SAME + _LJ, "C15": _POT, "C18": _SAME,
+}
+for _p, _fs in _UP.items():
+    _DEPENDS.setdefault(_p, [])
+    _DEPENDS[_p] = list(_DEPENDS[_p]) + _fs
 for _p, _fs in _DEPENDS.items():
     for _t in _fs:
         if _t not in PROP_FUNCS[_p]:
